@@ -45,6 +45,10 @@ func (i *Ignore) load(rootGoitPath string) error {
 	scanner := bufio.NewScanner(f)
 	for scanner.Scan() {
 		text := scanner.Text()
+		// a blank line is not a pattern
+		if strings.TrimSpace(text) == "" {
+			continue
+		}
 		var replacedText string
 		if directoryRegexp.MatchString(text) {
 			replacedText = fmt.Sprintf("%s.*", text)
